@@ -331,6 +331,24 @@ theorem linesIter_spec (b : Bytes) :
   have := this.2.2 l hl
   simpa using this
 
+
+/-- the line loop never logs an allocation, whatever the per-line function -/
+theorem scanLines_allocs {α : Type} (b : Bytes) (f : Nat → Nat → Res (Option α)) :
+    ∀ (fuel start : Nat) (acc : List α), (scanLines b f fuel start acc).allocs = [] := by
+  intro fuel
+  induction fuel with
+  | zero => intro start acc; rfl
+  | succ fuel ih =>
+    intro start acc
+    unfold scanLines
+    dsimp only
+    split
+    · rfl
+    · rfl
+    · split
+      · rfl
+      · exact ih _ _
+
 theorem noErr_scanLines {α : Type} (b : Bytes) (f : Nat → Nat → Res (Option α)) (hf : ∀ lo hi e, f lo hi ≠ .err e) :
     ∀ (fuel start : Nat) (acc : List α) (e : Err), (scanLines b f fuel start acc).res ≠ .err e := by
   intro fuel
@@ -346,5 +364,59 @@ theorem noErr_scanLines {α : Type} (b : Bytes) (f : Nat → Nat → Res (Option
     · split at h
       · cases h
       · exact ih _ _ _ h
+
+/-! ### the iterators have no error outcome either: they always yield a list -/
+
+theorem res_bind_not_err {α β : Type} {x : M α} {f : α → M β} (hx : ∀ e, x.res ≠ .err e) (hf : ∀ a e, (f a).res ≠ .err e) :
+    ∀ e, (x >>= f).res ≠ .err e := by
+  intro e h
+  rw [M.bind_def] at h
+  unfold M.bind' at h
+  cases hres : x.res with
+  | ok a => rw [hres] at h; exact hf a e h
+  | err e' => exact hx e' hres
+  | panic s => rw [hres] at h; cases h
+
+theorem checkRange_not_err (site : String) (len a c : Nat) : ∀ e, (checkRange site len a c).res ≠ .err e := by
+  intro e h; unfold checkRange at h; split at h <;> cases h
+
+theorem checkRangeInclusive_not_err (site : String) (len f l : Nat) : ∀ e, (checkRangeInclusive site len f l).res ≠ .err e := by
+  intro e h; unfold checkRangeInclusive at h
+  split at h
+  · cases h
+  · split at h <;> cases h
+
+theorem usizeAdd_not_err (site : String) (a c : Nat) : ∀ e, (usizeAdd site a c).res ≠ .err e := by
+  intro e h; unfold usizeAdd at h; split at h <;> cases h
+
+theorem trim_not_err (b : Bytes) (lo hi : Nat) : ∀ e, (trimAsciiWhitespace b lo hi).res ≠ .err e := by
+  unfold trimAsciiWhitespace
+  split
+  · exact res_bind_not_err (checkRangeInclusive_not_err _ _ _ _) (fun _ e h => by cases h)
+  · intro e h; cases h
+
+theorem stripQuotes_not_err (b : Bytes) (lo hi : Nat) : ∀ e, (stripQuotes b lo hi).res ≠ .err e := by
+  unfold stripQuotes
+  refine res_bind_not_err (trim_not_err b lo hi) (fun t e h => ?_)
+  split at h
+  · split at h <;> cases h
+  · cases h
+
+theorem splitOnce_not_err (b : Bytes) (sep : UInt8) (lo hi : Nat) : ∀ e, (splitOnce b sep lo hi).res ≠ .err e := by
+  unfold splitOnce
+  split
+  · intro e h; cases h
+  · exact res_bind_not_err (checkRange_not_err _ _ _ _) (fun _ =>
+      res_bind_not_err (usizeAdd_not_err _ _ _) (fun _ =>
+        res_bind_not_err (checkRange_not_err _ _ _ _) (fun _ e h => by cases h)))
+
+theorem kvLine_not_err (b : Bytes) (sep : UInt8) (lo hi : Nat) : ∀ e, (kvLine b sep lo hi).res ≠ .err e := by
+  unfold kvLine
+  refine res_bind_not_err (splitOnce_not_err b sep lo hi) (fun r => ?_)
+  split
+  · intro e h; cases h
+  · exact res_bind_not_err (stripQuotes_not_err _ _ _) (fun _ =>
+      res_bind_not_err (stripQuotes_not_err _ _ _) (fun _ e h => by cases h))
+
 
 end MdModel.Dump
